@@ -23,6 +23,7 @@ type Str struct {
 	s      string
 	b      []*Term
 	opaque bool
+	pre    string // opaque strings only: a concrete prefix the string is known to start with
 }
 
 func strOf(s string) Str { return Str{s: s} }
@@ -118,7 +119,13 @@ func strFromTerms(ts []*Term) Str {
 
 func strConcat(a, b Str) Str {
 	if a.opaque || b.opaque {
-		return Str{opaque: true, s: a.s + b.s}
+		pre := ""
+		if a.opaque {
+			pre = a.pre
+		} else if c, ok := a.Conc(); ok {
+			pre = c + b.pre
+		}
+		return Str{opaque: true, s: a.s + b.s, pre: pre}
 	}
 	if a.b == nil && b.b == nil {
 		return Str{s: a.s + b.s}
